@@ -11,12 +11,14 @@ import (
 	"context"
 	"encoding/json"
 	"fmt"
+	"io/fs"
 	"reflect"
 	"regexp"
 	"sort"
 	"strings"
 	"sync"
 	"sync/atomic"
+	"testing/fstest"
 	"time"
 
 	"github.com/traefik/yaegi/interp"
@@ -79,6 +81,50 @@ var cancelled = map[string]string{
 	"expired": "0",
 }
 
+// gateFS is the source file system of the interpreter: the packages slowpkg1..4 live in it, and the
+// first access to the package named by arm blocks until release is closed ("compiling": an evaluation
+// cancelled while its source is being loaded).
+type gateFS struct {
+	fs.FS
+	mu      sync.Mutex
+	arm     string
+	reached chan struct{}
+	release chan struct{}
+}
+
+func (g *gateFS) hold(name string) {
+	g.mu.Lock()
+	if g.arm == "" || !strings.Contains(name, g.arm) {
+		g.mu.Unlock()
+		return
+	}
+	g.arm = ""
+	reached, release := g.reached, g.release
+	g.mu.Unlock()
+	close(reached)
+	<-release
+}
+
+func (g *gateFS) Open(name string) (fs.File, error) {
+	g.hold(name)
+	return g.FS.Open(name)
+}
+
+func (g *gateFS) Stat(name string) (fs.FileInfo, error) {
+	g.hold(name)
+	return fs.Stat(g.FS, name)
+}
+
+func (g *gateFS) ReadDir(name string) ([]fs.DirEntry, error) {
+	g.hold(name)
+	return fs.ReadDir(g.FS, name)
+}
+
+func (g *gateFS) ReadFile(name string) ([]byte, error) {
+	g.hold(name)
+	return fs.ReadFile(g.FS, name)
+}
+
 type obs struct {
 	Step    int    `json:"step"` // first failing step (1-based), 0 = history held
 	Got     string `json:"got,omitempty"`
@@ -98,7 +144,19 @@ func replay(h history) (o obs) {
 			}
 		}
 	}()
-	i := interp.New(interp.Options{Stdout: new(bytes.Buffer), Stderr: new(bytes.Buffer)})
+	mfs := fstest.MapFS{}
+	for n := 1; n <= 6; n++ {
+		mfs[fmt.Sprintf("gp/src/slowpkg%d/p.go", n)] = &fstest.MapFile{Data: []byte(fmt.Sprintf("package slowpkg%d\n\nvar X = %d\n", n, n))}
+	}
+	gate := &gateFS{FS: mfs}
+	nslow := 0
+	var parkedRelease chan struct{}
+	defer func() {
+		if parkedRelease != nil {
+			close(parkedRelease)
+		}
+	}()
+	i := interp.New(interp.Options{GoPath: "./gp", SourcecodeFilesystem: gate, Stdout: new(bytes.Buffer), Stderr: new(bytes.Buffer)})
 	i.Use(stdlib.Symbols)
 	host := map[string]func() int{}
 	progs := map[string]*interp.Program{}
@@ -134,6 +192,56 @@ func replay(h history) (o obs) {
 		progs[k] = pr
 	}
 	for n, s := range h.Hist {
+		if s.Op == "release" {
+			// the goroutine left behind by the evaluation cancelled while loading goes on: it loads,
+			// compiles and enters execution; it is given the time to end
+			if parkedRelease != nil {
+				close(parkedRelease)
+				parkedRelease = nil
+				time.Sleep(120 * time.Millisecond)
+			}
+			continue
+		}
+		if s.Op == "cancel" && s.What == "compiling" {
+			if nslow++; nslow > 6 {
+				continue
+			}
+			ctx, cancel := context.WithCancel(context.Background())
+			gate.mu.Lock()
+			gate.arm = fmt.Sprintf("slowpkg%d", nslow)
+			gate.reached, gate.release = make(chan struct{}), make(chan struct{})
+			reached := gate.reached
+			parkedRelease = gate.release
+			gate.mu.Unlock()
+			res := make(chan error, 1)
+			go func() {
+				_, err := i.EvalWithContext(ctx, fmt.Sprintf("import \"slowpkg%d\"", nslow))
+				res <- err
+			}()
+			select {
+			case <-reached:
+			case err := <-res:
+				cancel()
+				o.Step, o.Err = n+1, fmt.Sprintf("the evaluation did not reach the source file system: %v", err)
+				return
+			case <-time.After(10 * time.Second):
+				cancel()
+				o.Step, o.Err = n+1, "the evaluation did not reach the source file system within 10s"
+				return
+			}
+			cancel()
+			select {
+			case err := <-res:
+				if err == nil {
+					o.Step, o.Err = n+1, "cancelled evaluation returned no error"
+					return
+				}
+			case <-time.After(5 * time.Second):
+				o.Step, o.Err = n+1, "cancelled evaluation did not return within 5s"
+				return
+			}
+			continue
+		}
 		if s.Op == "cancel" {
 			// cancel once the program has started executing (a cancellation that lands in
 			// the compile phase is finding F-C09-1 and races with the next evaluation)
@@ -280,7 +388,7 @@ func run(c *fw.Ctx) error {
 		"definitions are counters, so a call that silently did nothing is visible as a wrong return value",
 		"host-held function values are obtained right after the definitions, before any cancellation",
 		"a history is abandoned at its first failing step",
-		"cancelled evaluations: busy loop and blocked channel receive cancelled 3 ms after their first interpreted operation (seen through the step hook); already-cancelled context with a trivial expression (a program that keeps running there is finding F-C09-1 and would race with the next evaluation)",
+		"cancelled evaluations: busy loop and blocked channel receive cancelled 3 ms after their first interpreted operation (seen through the step hook); an import of a source package cancelled while the evaluation is held in the source file system (Options.SourcecodeFilesystem), its goroutine released by a later step of the history; already-cancelled context with a trivial expression (a program that keeps running there is finding F-C09-1 and would race with the next evaluation)",
 	}
 	var all []history
 	if c.Replay != "" {
@@ -416,7 +524,7 @@ func signature(h history, o obs) (string, string) {
 		if p.Op == "cancel" {
 			break
 		}
-		if p.Via != "host" {
+		if p.Op == "use" && p.Via != "host" {
 			between = true
 		}
 	}
